@@ -486,7 +486,7 @@ def nod (f : RustField) : Bool := !f.ty.isOptional && f.hasDefault
 /-- the names one field line uses: its type's names, the `Optional[` wrapped around a defaulted
 non-`Option`, `Field(` when there is an alias or a default, and for a custom-translated type
 `Annotated[.., BeforeValidator(..), PlainSerializer(..)]` and the two translation functions named
-there.  (Since the `fix:` commit ab2f0e6 `write_field` registers the unwrapped type for function
+there.  (Since the `fix:` commit 0d6268d `write_field` registers the unwrapped type for function
 generation whether or not the field is defaulted; before it the functions of a defaulted
 non-`Option` field were a separate list `fieldRisky` the printer did not account for.) -/
 def fieldSafe (E : Ext) (cfg : Cfg) (gens : List Str) (f : RustField) : List Need :=
@@ -804,7 +804,7 @@ theorem writeEnum_spec (E : Ext) (cfg : Cfg) (e : RustEnum) (st : St) (text : St
 /-! ## items and the file -/
 
 /-- the names an item's text uses and the printer accounts for.  A type alias (since the `fix:`
-commit 614135b: `G = List[T]`, every generic parameter registered with `add_type_var`): the
+commit f8d1040: `G = List[T]`, every generic parameter registered with `add_type_var`): the
 `TypeVar`s of its parameters and the name `TypeVar` of their declarations, and what its type uses —
 uses of a generic parameter included -/
 def itemSafe (E : Ext) (cfg : Cfg) : RustItem → List Need
@@ -902,7 +902,7 @@ theorem addDatetimeImport_customJson (st : St) : (addDatetimeImport st).customJs
   unfold addDatetimeImport
   split <;> rfl
 
-/-- the import `generate_types` adds before the header is written (`fix:` commit 062e77e) provides
+/-- the import `generate_types` adds before the header is written (`fix:` commit bfc37c3) provides
 the `datetime` the translation functions mention -/
 theorem addDatetimeImport_provides (st : St) : ∀ n ∈ fnsNeeds (addDatetimeImport st), Provides (addDatetimeImport st) n := by
   intro n hn
